@@ -102,3 +102,23 @@ fn k_c05_avx2_encode_dna_7() {
         (Err(_), None) => panic!("rejected a valid string"),
     }
 }
+
+/// C05 / C06 (bounded): a length ONE SHORT of a whole vector (31 = 32 - 1): the vector loop must not run (its 32-byte load and store
+/// would leave both slices by one byte); all 31-byte inputs
+#[kani::proof]
+#[kani::unwind(36)]
+#[kani::stub(std::arch::x86_64::_mm256_blendv_epi8, m256_blendv_epi8)]
+#[kani::stub(std::arch::x86_64::_mm256_testz_si256, m256_testz_si256)]
+fn k_c05_avx2_encode_dna_31() {
+    const N: usize = 31;
+    let seq: [u8; N] = kani::any();
+    let mut dst = [Nucleotide::N; N];
+    let r = Avx2::encode_into::<Dna>(&seq, &mut dst);
+    let first = spec_first_invalid(&seq, b"ACTGN");
+    match (r, first) {
+        (Ok(()), None) => { let i: usize = kani::any(); kani::assume(i < N); assert!(dst[i].as_ascii() == seq[i]); }
+        (Err(e), Some(p)) => assert!(e.0 == seq[p] as char),
+        (Ok(()), Some(_)) => panic!("accepted an invalid byte"),
+        (Err(_), None) => panic!("rejected a valid string"),
+    }
+}
